@@ -236,7 +236,7 @@ func TestCheck(t *testing.T) {
 	rec = mon.Open("C12")
 	defer rec.Close()
 	rec.Note("rule", "a case is one topology run against the real managers in a synctest bubble: 0-4 runners drawn from {nil, error, context.Canceled, wrapped Canceled, block-until-cancel (returning nil / an error / ctx.Err), gate-released (nil / error)} finishing in a seeded order, parent context cancelled or not; for the closer manager additionally 0-4 closers of the four accepted types with seeded durations and errors, grace period unset / generous / exceeded, Close before / during / after Run (repeated, concurrent), AddCloser during the run and AddCloser parked at its decision point while Run enters the closing phase, unsupported closer types. The sequence-stamped event log is judged offline. Non-trivial = at least one runner or closer; distinct = distinct topology description.")
-	rec.Note("require", []string{"runner.first_return_cancels_others", "runner.parent_cancel", "closer.fatal_fired", "closer.fatal_not_fired", "closer.close_during_run", "closer.close_before_run", "closer.concurrent_close", "closer.addcloser_during_run", "placed.addcloser_parked", "closer.unsupported_type_rejected", "closer.all_runners_registered_with_add", "shared_slice.slice_given_to_first_add", "join.errors_checked", "closer.addcloser_from_a_running_closer_refused", "closer.returns_context_canceled", "parent_end.cancel", "parent_end.deadline", "parent_end.cause", "parent_end.already-ended", "racing.addcloser_accepted", "racing.addcloser_rejected", "shared_slice.managers_start_their_own_runners"})
+	rec.Note("require", []string{"runner.first_return_cancels_others", "runner.parent_cancel", "closer.fatal_fired", "closer.fatal_not_fired", "closer.close_during_run", "closer.close_before_run", "closer.concurrent_close", "closer.addcloser_during_run", "placed.addcloser_parked", "closer.unsupported_type_rejected", "closer.all_runners_registered_with_add", "closer.finishes_in_the_last_fraction_of_the_grace_period", "shared_slice.slice_given_to_first_add", "join.errors_checked", "closer.addcloser_from_a_running_closer_refused", "closer.returns_context_canceled", "parent_end.cancel", "parent_end.deadline", "parent_end.cause", "parent_end.already-ended", "racing.addcloser_accepted", "racing.addcloser_rejected", "shared_slice.managers_start_their_own_runners"})
 	ps := plans()
 	rec.Planned(len(ps))
 	for idx, pl := range ps {
@@ -642,7 +642,8 @@ func runCloser(t *testing.T, idx int, rng *mon.RNG, placed bool) {
 		ds = append(ds, specs[i].Kind)
 	}
 	graceMode := rng.PickStr("nil", "generous", "exceeded")
-	grace := 10 * time.Second
+	// the grace period is not always a whole number of seconds
+	grace := []time.Duration{10 * time.Second, 4500 * time.Millisecond, 900 * time.Millisecond, 1500 * time.Millisecond, 2750 * time.Millisecond, 10 * time.Second}[idx%6]
 	cs := make([]cspec, nc)
 	csents := make([]error, nc+2)
 	var cd []string
@@ -650,8 +651,14 @@ func runCloser(t *testing.T, idx int, rng *mon.RNG, placed bool) {
 	for j := range cs {
 		cs[j] = cspec{Type: ctypes[rng.Intn(4)], Dur: time.Duration(rng.Intn(5)) * time.Second, Err: rng.Chance(1, 3), Gate: placed}
 		cs[j].Reenter = !placed && rng.Chance(1, 4)
+		cs[j].Dur += time.Duration(idx%4) * 250 * time.Millisecond
 		if graceMode == "exceeded" && j == 0 {
 			cs[j].Dur = grace + time.Duration(1+rng.Intn(5))*time.Second
+		}
+		if graceMode == "generous" && (cs[j].Dur >= grace || (j == 0 && idx%2 == 0)) {
+			// finishes inside the grace period, in its last 100 ms (after the last whole second of it)
+			cs[j].Dur = grace - 100*time.Millisecond
+			rec.Count("closer.finishes_in_the_last_fraction_of_the_grace_period", 1)
 		}
 		if cs[j].Dur > maxDur {
 			maxDur = cs[j].Dur
@@ -690,7 +697,7 @@ func runCloser(t *testing.T, idx int, rng *mon.RNG, placed bool) {
 	if placed {
 		mode = "addcloser-placed"
 	}
-	w := &world{idx: idx, mode: mode, desc: fmt.Sprintf("runners=%v closers=%v grace=%s close=%s parentCancel=%v(%s) lateCloser=%v order=%d ctorRunners=%d", ds, cd, graceMode, closeWhen, parentCancel, parentKind, lateCloser, order, ctorRunners)}
+	w := &world{idx: idx, mode: mode, desc: fmt.Sprintf("runners=%v closers=%v grace=%s close=%s parentCancel=%v(%s) lateCloser=%v order=%d ctorRunners=%d gracePeriod=%v", ds, cd, graceMode, closeWhen, parentCancel, parentKind, lateCloser, order, ctorRunners, grace)}
 	rec.Begin(idx, w.mode+" "+w.desc)
 	res := mon.Bubble(t, func() {
 		var runners []concurrency.Runner
